@@ -502,6 +502,7 @@ type component struct {
 	leaf  string // leaf sort
 	nidx  int    // number of index steps
 	init  string // initial symbol
+	late  string // symbol standing for the component after an earlier abstracted call or loop wrote it (component created later)
 	leafT types.Type
 }
 
@@ -545,12 +546,33 @@ func (e *Engine) comp(root types.Type, path []pathElem, suffix, leaf string) *co
 	e.sc.add(fmt.Sprintf("(declare-const %s %s)", c.init, sort))
 	e.comps[key] = c
 	e.compOrder = append(e.compOrder, key)
+	e.lateHavoc(c)
 	return c
+}
+
+// lateHavoc: a component that is touched for the first time after an abstracted
+// call or a loop that may have written it must not read as the entry state.
+func (e *Engine) lateHavoc(c *component) {
+	for _, keys := range e.pendingWrites {
+		if e.inModSet(keys, c.key) {
+			name := e.sc.freshName("Hlate_" + c.key)
+			e.sc.declared[name] = c.sort
+			e.sc.add(fmt.Sprintf("(declare-const %s %s)", name, c.sort))
+			c.late = name
+			e.dirty[c.key] = true
+			return
+		}
+	}
 }
 
 func (e *Engine) heapGet(h Heap, c *component) string {
 	if t, ok := h[c.key]; ok {
 		return t
+	}
+	if c.late != "" {
+		if _, entry := h["#entry"]; !entry {
+			return c.late
+		}
 	}
 	return c.init
 }
